@@ -22,6 +22,7 @@ import (
 	"sync/atomic"
 
 	"github.com/B1NARY-GR0UP/originium/pkg/logger"
+	"github.com/B1NARY-GR0UP/originium/pkg/verifhook"
 	"github.com/B1NARY-GR0UP/originium/types"
 )
 
@@ -96,6 +97,7 @@ func Open(dir string, config Config) (*DB, error) {
 	db.oracle.readMark.Done(maxTs)
 	db.oracle.commitMark.Done(maxTs)
 	db.oracle.nextTs = maxTs + 1
+	verifhook.At("rec.done", maxTs)
 
 	go db.run()
 	return db, nil
@@ -103,7 +105,9 @@ func Open(dir string, config Config) (*DB, error) {
 
 func (db *DB) Close() {
 	defer atomic.StoreUint32(&db.state, uint32(StateClosed))
+	verifhook.At("cl.signal.pre")
 	db.closeC <- struct{}{}
+	verifhook.At("cl.signal")
 
 	mt := db.memtable
 	mt.freeze()
@@ -115,7 +119,9 @@ func (db *DB) Close() {
 		}
 	}
 
+	verifhook.At("cl.flushed")
 	<-db.closed
+	verifhook.At("cl.done")
 }
 
 func (db *DB) View(fn TxnFunc) error {
@@ -191,6 +197,7 @@ func (db *DB) search(key types.Key) ([]byte, bool) {
 func (db *DB) rawset(entries ...types.Entry) {
 	db.memtable.set(entries...)
 
+	verifhook.At("cm.applied", len(entries))
 	if db.memtable.size() >= db.config.MemtableByteThreshold {
 		// readers walk memtable and immutables under db.mu: rotate under the same lock and make
 		// the frozen memtable reachable before the flusher can see (and later remove) it
@@ -199,9 +206,12 @@ func (db *DB) rawset(entries ...types.Entry) {
 		imt := db.memtable
 		db.immutables.PushBack(imt)
 		db.memtable = db.memtable.reset()
+		verifhook.At("cm.rotated", db.immutables.Len())
 		db.mu.Unlock()
 
+		verifhook.At("cm.enq.pre", len(db.flushC), cap(db.flushC))
 		db.flushC <- imt
+		verifhook.At("cm.enq", len(db.flushC))
 	}
 }
 
@@ -221,10 +231,14 @@ func (db *DB) run() {
 	var closed bool
 LOOP:
 	for {
+		verifhook.At("fl.wait", len(db.flushC), closed)
 		select {
 		case imt := <-db.flushC:
+			verifhook.At("fl.take", len(db.flushC))
 			db.flushImmutable(imt)
+			verifhook.At("fl.flushed")
 			db.manager.checkAndCompact()
+			verifhook.At("fl.compacted")
 
 			// remove the memtable that was flushed (the oldest), not the newest one
 			db.mu.Lock()
@@ -234,7 +248,9 @@ LOOP:
 					break
 				}
 			}
+			verifhook.At("fl.removed.locked", db.immutables.Len())
 			db.mu.Unlock()
+			verifhook.At("fl.removed")
 
 			if closed && len(db.flushC) == 0 {
 				break LOOP
@@ -247,5 +263,6 @@ LOOP:
 			break LOOP
 		}
 	}
+	verifhook.At("fl.exit")
 	close(db.closed)
 }
